@@ -73,7 +73,8 @@ def build(repo=None):
     for n in mod.tree.body:
         if isinstance(n, ast.Assign) and len(n.targets) == 1 and getattr(n.targets[0], "id", None) == "_any_dtype":
             sentinels["_any_dtype"] = ANY
-    env = mod.constants({"_make_dtype": lambda d, name: Cat(d, name), "object": lambda: ANY, "_Sentinel": lambda nm: ANY if nm == "_any_dtype" else ("sentinel", nm)})
+    env = mod.constants({"_make_dtype": lambda d, name: Cat(list(d) if isinstance(d, list) else d, name),  # the class keeps a tuple COPY (AbstractDtype.__init_subclass__): later edits of the list do not reach it
+                          "object": lambda: ANY, "_Sentinel": lambda nm: ANY if nm == "_any_dtype" else ("sentinel", nm)})
     cats = {k: v for k, v in env.items() if isinstance(v, Cat)}
     for cname, want in SPEC_TABLE.items():
         c = cats.get(cname)
